@@ -99,6 +99,19 @@ func (s *sim) propose(b *simBranch, typ string, sk *string, sender string, conte
 	if err != nil {
 		return nil, false
 	}
+	// the protocol also wants the invitee's server (invites) and the authorising
+	// user's server (restricted joins) to sign
+	if typ == "m.room.member" && sk != nil {
+		m, _ := content.Get("membership").Str()
+		if m == "invite" && serverOf(*sk) != serverOf(sender) {
+			oid := serverIdentity(serverOf(*sk))
+			ev = ev.Sign(oid.Server, gmsl.KeyID(oid.KeyID), oid.Priv)
+		}
+		if via, ok := content.Get("join_authorised_via_users_server").Str(); ok && m == "join" && serverOf(via) != serverOf(sender) {
+			oid := serverIdentity(serverOf(via))
+			ev = ev.Sign(oid.Server, gmsl.KeyID(oid.KeyID), oid.Priv)
+		}
+	}
 	if err := gmsl.Allowed(ev, prov, userIDForSender); err != nil {
 		if keepRefused && sk != nil {
 			s.refused = append(s.refused, ev)
